@@ -93,7 +93,8 @@ class C03(Check):
             "measures every effectful OS-level call under the table root (open-for-write, write, fsync, close, replace, "
             "remove, mkdir, flock, and the Python-visible stages of pyarrow's parquet writer); the child is re-run and "
             "killed with os._exit immediately before call #k for EVERY k, plus a torn-write variant at every write and a "
-            "truncated-temp-parquet variant; non-trivial = a crash after which leftovers (temp files, markers, uncommitted "
+            "truncated-temp-parquet variant; object storage: the operation's thread is parked for ever before its k-th S3 "
+            "request for EVERY k (no finally/rollback/release runs; the lock object lapses by lease); non-trivial = a crash after which leftovers (temp files, markers, uncommitted "
             "metadata, unreferenced data) exist; distinct by (scenario, prior, k, variant)")
     assumptions = [
         "process-crash model: completed syscalls persist (power loss is C16's subject)",
@@ -146,10 +147,189 @@ class C03(Check):
                       (c[0] != "fsync" or c[1].endswith(".parquet"))]
                 if pq:
                     yield {"scenario": sc, "prior": prior, "ks": pq, "variant": "trunc", "n": n}
+        # object storage: the operation's thread is parked for ever before its k-th S3 request, for every k
+        for sc in SCENARIOS:
+            for prior in ([0] if sc == "create" else ([0, 3] if sc == "append" else [3])):
+                n = self._s3_nreq(sc, prior)
+                ks = list(range(n + 1))
+                group = 12
+                for i in range(0, len(ks), group):
+                    yield {"backend": "s3", "scenario": sc, "prior": prior, "ks": ks[i:i + group], "variant": "s3", "n": n}
+
+    # ---- object storage -------------------------------------------------------------------
+    def _s3_env(self) -> Any:
+        """context: S3 double + virtual time for the lock / retry modules + no heartbeat thread"""
+        import contextlib
+        import time as _t
+
+        import datashard.lock_provider as lpm
+        import datashard.s3_consistency as s3c
+        from vf.fakes3 import FakeS3Store, S3Env
+        from vf.interpose import GlobalPatch, ModuleProxy
+
+        @contextlib.contextmanager
+        def cm() -> Any:
+            store = FakeS3Store()
+            store.keep_log = False
+            with S3Env(store), GlobalPatch() as gp:
+                proxy = ModuleProxy(_t, {"sleep": lambda x: store.clock.advance(float(x)), "time": store.clock.now,
+                                         "monotonic": store.clock.now})
+                gp.set(lpm, "time", proxy)
+                gp.set(s3c, "time", proxy)
+                gp.set(lpm.S3LockProviderBase, "_start_heartbeat", lambda self_: None)
+                yield store
+        return cm()
+
+    def _s3_nreq(self, scenario: str, prior: int) -> int:
+        from vf import s3crash
+
+        key = f"s3:{scenario}:{prior}"
+        if key not in self._counts:
+            with self._s3_env() as store:
+                s3crash.build_pre(store, scenario, prior)
+                r = s3crash.run_until(store, s3crash.operation(scenario), -1)
+                if r["error"] or r["parked"]:
+                    raise RuntimeError(f"S3 dry run of {key} failed: {r}")
+                self._counts[key] = len(r["requests"])
+        return self._counts[key]
+
+    def _s3(self, case: Any, res: CaseResult) -> None:
+        import datashard as ds
+        from datashard.garbage_collector import GarbageCollector
+        from vf import s3crash
+
+        sc, prior = case["scenario"], case["prior"]
+        for k in case["ks"]:
+            with self._s3_env() as store:
+                s3crash.build_pre(store, sc, prior)
+                pre: Dict[str, Any] = {}
+                post: Dict[str, Any] = {}
+                if sc != "create":
+                    po = s3crash.observe(store)
+                    blobs = reader.Blobs.s3(store, "bkt", s3crash.TABLE)
+                    tv = reader.read_table(blobs)
+                    cur = tv.current()
+                    pre = {"rows": po["rows"], "nsnap": po["nsnap"], "uuid": po["uuid"], "pointer": po["pointer"],
+                           "reach": set(po["reach"]),
+                           "first_file_rows": reader.canon_rows(reader.read_rows(blobs, cur.files[0])) if cur and cur.files else [],
+                           "rows_before_last": []}
+                    if cur is not None and len(tv.snapshots) >= 2:
+                        pre["rows_before_last"] = sorted(tv.snapshots, key=lambda s_: s_.seq)[-2].rows
+                    post = expected_post(sc, pre)
+                r = s3crash.run_until(store, s3crash.operation(sc), k)
+                res.evals += 1
+                res.count("crash_points")
+                res.count("s3_crash_points")
+                crashed = r["parked"]
+                if not crashed and (r["error"] or k < case["n"]):
+                    if r["error"]:
+                        res.inconclusive.append(f"S3 {sc}/{prior}/k={k}: operation raised {r['error']}")
+                        continue
+                    res.count("crash_index_beyond_run")
+                wit = {"backend": "s3", "scenario": sc, "prior": prior, "k": k, "variant": "s3",
+                       "crash": [f"parked before request #{k}; last requests: {r['requests'][-3:]}"]}
+                sig = f"{sc}:s3"
+                listing0 = set(s3crash.listing(store))
+                store.clock.advance(s3crash.LEASE + 5.0)      # the dead holder's lock lapses
+
+                def gc_now(tag: str, state_rows: Any) -> bool:
+                    obs_ = s3crash.observe(store)
+                    reach = set(obs_["reach"]) if not obs_.get("absent") else set()
+                    s3crash.age_all(store, 200000)
+                    before = set(s3crash.listing(store))
+                    try:
+                        t2 = ds.load_table(s3crash.TABLE)
+                        GarbageCollector(t2.table_path, t2.metadata_manager, t2.file_manager).collect(0, 0)
+                        res.count("gc_after_crash")
+                    except Exception as e:  # noqa
+                        res.violation(f"gc-fails-after-crash:{sig}{tag}", f"{type(e).__name__}: {str(e)[:200]}", wit)
+                        return False
+                    gone = before - set(s3crash.listing(store))
+                    res.count("leftovers_removed_by_gc", len([p_ for p_ in gone if not p_.startswith(".locks/")]))
+                    if gone & reach:
+                        res.violation(f"gc-deleted-reachable-after-crash:{sig}{tag}", f"{sorted(gone & reach)[:3]}", wit)
+                        return False
+                    o3 = s3crash.observe(store)
+                    if o3.get("absent") or o3.get("errors") or o3.get("rows") != state_rows:
+                        res.violation(f"gc-damaged-table-after-crash:{sig}{tag}", f"{o3.get('errors') or o3.get('error')}", wit)
+                        return False
+                    return True
+
+                if sc == "create":
+                    try:
+                        t = ds.create_table(s3crash.TABLE, schema=tables.std_schema())
+                        if t.scan() != [] or t.row_count() != 0:
+                            res.violation(f"create-crash-not-empty:{sig}", "table not empty after interrupted creation", wit)
+                            continue
+                        t.append_records(tables.rows([1]))
+                        res.count("followup_appends")
+                        if tables.ids_of(ds.load_table(s3crash.TABLE).scan()) != [1]:
+                            res.violation(f"create-crash-append-wrong:{sig}", "append after interrupted creation not readable", wit)
+                            continue
+                    except Exception as e:  # noqa
+                        res.violation(f"create-crash-unusable:{sig}", f"table unusable after interrupted creation: {type(e).__name__}: {str(e)[:200]}", wit)
+                        continue
+                    if not gc_now("", reader.canon_rows(tables.rows([1]))):
+                        continue
+                    res.count("pre_state_seen")
+                    res.key(["s3", sc, k])
+                    continue
+                obs = s3crash.observe(store)
+                wit["observed"] = {kk: obs.get(kk) for kk in ("pointer", "nsnap", "errors")}
+                if obs.get("absent") or obs.get("errors"):
+                    res.violation(f"unreadable-after-crash:{sig}", f"independent reader: {obs.get('error') or obs.get('errors')}", wit)
+                    continue
+                moved = obs["pointer"] != pre["pointer"]
+                is_pre = obs["rows"] == pre["rows"] and obs["nsnap"] == pre["nsnap"]
+                is_post = obs["rows"] == post["rows"] and obs["nsnap"] == post["nsnap"]
+                if obs["uuid"] != pre["uuid"]:
+                    res.violation(f"identity-changed:{sig}", "table uuid changed", wit)
+                    continue
+                if moved and not is_post:
+                    res.violation(f"neither-pre-nor-post:{sig}", f"pointer moved but state is not the post-state: rows {len(obs['rows'])}, snapshots {obs['nsnap']}", wit)
+                    continue
+                if not moved and not is_pre:
+                    res.violation(f"state-changed-without-pointer-flip:{sig}", f"pointer unchanged but rows {len(obs['rows'])} / snapshots {obs['nsnap']} differ from the pre-state", wit)
+                    continue
+                res.count("post_state_seen" if moved else "pre_state_seen")
+                state_rows = obs["rows"]
+                try:
+                    t = ds.load_table(s3crash.TABLE)
+                    lib = reader.canon_rows(t.scan())
+                    nrows = t.row_count()
+                    snaps = t.snapshots()
+                except Exception as e:  # noqa
+                    res.violation(f"library-read-fails-after-crash:{sig}", f"{type(e).__name__}: {str(e)[:200]}", wit)
+                    continue
+                if lib != state_rows or nrows != len(state_rows) or len(snaps) != obs["nsnap"]:
+                    res.violation(f"library-disagrees-after-crash:{sig}", f"library sees {len(lib)} rows / {len(snaps)} snapshots", wit)
+                    continue
+                if not gc_now(":gc-first", state_rows):
+                    continue
+                try:
+                    t = ds.load_table(s3crash.TABLE)
+                    t.append_records(tables.rows([7777]))
+                    res.count("followup_appends")
+                    after = reader.canon_rows(ds.load_table(s3crash.TABLE).scan())
+                except Exception as e:  # noqa
+                    res.violation(f"append-fails-after-crash:{sig}", f"{type(e).__name__}: {str(e)[:200]}", wit)
+                    continue
+                if after != sorted(state_rows + reader.canon_rows(tables.rows([7777]))):
+                    res.violation(f"append-wrong-after-crash:{sig}", f"{len(after)} rows after follow-up append, expected {len(state_rows) + 1}", wit)
+                    continue
+                if not gc_now("", after):
+                    continue
+                leftovers = [p_ for p_ in listing0 if p_ not in pre["reach"] and not p_.startswith(".locks/")
+                             and p_ != reader.HINT and not p_.startswith("metadata/v")]
+                if crashed and leftovers:
+                    res.key(["s3", sc, prior, k])
+                    res.count("crashes_with_leftovers")
 
     def run_case(self, case: Any, res: CaseResult, tier: str) -> None:
         import datashard as ds
 
+        if case.get("backend") == "s3":
+            return self._s3(case, res)
         sc, prior = case["scenario"], case["prior"]
         with Scratch("c03") as d:
             tmpl = str(d / "tmpl" / "t")
